@@ -1,0 +1,73 @@
+//go:build verif
+
+package sync
+
+import (
+	"context"
+	"time"
+)
+
+// Exports for the verification harness in /verif (build tag `verif` only; nothing here is
+// compiled into a normal build).
+
+// VerifIncomingNetworkHead exposes the gossip path: verify (incl. bifurcation) + setLocalHead.
+func (s *Syncer[H]) VerifIncomingNetworkHead(ctx context.Context, h H) error {
+	return s.incomingNetworkHead(ctx, h)
+}
+
+// VerifVerify exposes Syncer.verify (direct verification, bifurcation for soft failures).
+func (s *Syncer[H]) VerifVerify(ctx context.Context, h H) error { return s.verify(ctx, h) }
+
+// VerifLocalHead exposes the current subjective head (pending head, else store head).
+func (s *Syncer[H]) VerifLocalHead(ctx context.Context) (H, error) { return s.localHead(ctx) }
+
+// VerifPendingHeights lists the heights held in the pending ranges, range by range.
+func (s *Syncer[H]) VerifPendingHeights() [][]uint64 {
+	s.pending.lk.RLock()
+	defer s.pending.lk.RUnlock()
+	out := make([][]uint64, 0, len(s.pending.ranges))
+	for _, r := range s.pending.ranges {
+		r.lk.RLock()
+		hs := make([]uint64, len(r.headers))
+		for i, h := range r.headers {
+			hs[i] = h.Height()
+		}
+		r.lk.RUnlock()
+		out = append(out, hs)
+	}
+	return out
+}
+
+// VerifInit prepares a Syncer for direct calls without Start (context only).
+func (s *Syncer[H]) VerifInit() {
+	s.ctx, s.cancel = context.WithCancel(context.Background())
+}
+
+// VerifEstimateTailHeight exposes estimateTailHeight.
+func (s *Syncer[H]) VerifEstimateTailHeight(head H) uint64 { return s.estimateTailHeight(head) }
+
+// VerifFindTailHeight exposes findTailHeight.
+func (s *Syncer[H]) VerifFindTailHeight(ctx context.Context, oldTail, head H) (uint64, error) {
+	return s.findTailHeight(ctx, oldTail, head)
+}
+
+// VerifSubjectiveTail exposes subjectiveTail (renewTail + moveTail).
+func (s *Syncer[H]) VerifSubjectiveTail(ctx context.Context, head H) (H, error) {
+	return s.subjectiveTail(ctx, head)
+}
+
+// VerifSetPolicy overrides the unexported time policy parameters.
+func (s *Syncer[H]) VerifSetPolicy(trustingPeriod, blockTime, recencyThreshold time.Duration) {
+	s.Params.trustingPeriod, s.Params.blockTime, s.Params.recencyThreshold = trustingPeriod, blockTime, recencyThreshold
+}
+
+// VerifPolicy reads them back.
+func (s *Syncer[H]) VerifPolicy() (trustingPeriod, blockTime, recencyThreshold time.Duration) {
+	return s.Params.trustingPeriod, s.Params.blockTime, s.Params.recencyThreshold
+}
+
+// VerifRangeAmount exposes headerRange.rangeAmount for a range of `n` headers starting at `start`.
+func VerifRangeAmount(start uint64, n int, end uint64) uint64 {
+	r := &headerRange[*verifHdr]{start: start, headers: make([]*verifHdr, n)}
+	return r.rangeAmount(end)
+}
